@@ -183,14 +183,15 @@ def hist_evtime(rng):
 
 class C07(vlib.Spec):
     prop = "C07"
-    lean_modules = ["Banyan.Props.C07"]
+    lean_modules = ["Banyan.Props.C07", "Banyan.Tie.C07"]
     theorems = ["Banyan.C07." + t for t in [
-        "before_halfopen", "remove_only_expired", "remove_exact", "select_hides_expired", "select_pins",
-        "forced_cleanup_bounds", "retention_property", "ttl_update", "ttl_update_legacy_counterexample",
-        "tick_event_time_legacy_counterexample"]]
+        "before_cases", "before_halfopen", "remove_exact", "remove_only_expired", "select_hides_expired", "select_pins",
+        "forced_cleanup_bounds", "forced_cleanup_oldest", "retention_gate_exclusive", "retention_property",
+        "ttl_update", "ttl_update_legacy_counterexample", "tick_event_time_legacy_counterexample", "applyOp_projects"]] + [
+        "Banyan.Tie.C07." + t for t in ["creation_gap_tie", "tick_snap_tie", "ttl_day_tie", "keep_one_tie"]]
     go_driver = "seg"
     lean_driver = "C07"
-    counts = {"quick": 900, "thorough": 20000}
+    counts = {"quick": 900, "thorough": 12000}
     trusted_base = [
         "Lean 4.33.0 kernel",
         "correspondence check: Go driver hooks/banyand/internal/verifdrv/seg (real OpenTSDB on a scratch dir, mock clock, the "
@@ -225,8 +226,19 @@ class C07(vlib.Spec):
                 out.append(hist_evtime(rng))
         return out
 
+    def __init__(self):
+        self.stats = {}
+
     def oracle(self, line, g):
+        try:
+            L.branch_stats(line, g, self.stats)
+        except Exception:
+            self.stats["branch:stats-error"] = self.stats.get("branch:stats-error", 0) + 1
         return L.classify("C07", line, g)
+
+    def extra(self, R, tier, rng):
+        for k, v in self.stats.items():
+            R.count(k, v)
 
     def shrink(self, line, still_fails):
         return L.shrink_hist(line, still_fails)
